@@ -154,6 +154,10 @@ TempFollowsPath == pc \in {"loop", "react"} /\ lastPos > 0 =>
 LiqIff == [][pc = "matched" => (liqd' = (Liq /\ pos.open /\ real.l <= pos.liq /\ pos.liq <= real.h))]_vars
 LiqEffect == liqd => (~pos.open /\ \A j \in Idx : ~Active(j))
 LiqOnlyInCheck == [][liqd' # liqd => pc = "matched"]_vars
+\* implementation fact (non-vacuity note): every selection is made on the part of the candle still ahead, so the
+\* candidate under the cursor is always active and inside it - the `continue` / `else` branches of the `for` loop
+\* (action TryNext) are unreachable in the normal simulator; they are live in FastMatching.tla (Variant = "tree")
+SkipBranchesDead == pc = "loop" /\ cursor <= Len(cands) => Active(cands[cursor]) /\ Includes(temp, ords[cands[cursor]].p)
 TypeOK == /\ ValidCandle(temp) /\ cursor \in 0..(Len(cands) + 1) /\ nreact \in 0..MaxReact
           /\ Len(ords) <= MaxOrders + MaxReact
 =============================================================================
